@@ -8,9 +8,9 @@ SPEC = hdr_spec(
          "and compares with the reported tip after every submission and with Hash(0..tip) at every dump; non-trivial = at least 8 submissions",
     props_file="C07",
     partial_note="proved for every history of submissions (C07_stream_reconstructs: the subscriber's chain is the repository's best chain; C07_reorg_shape: a reorganisation "
-                 "announces exactly the new chain above a common header, lowest first, linked) under two explicit history predicates: no automatic clean is triggered and no "
-                 "submission ends in the internal branch-update error. Histories with Clean/Save/Load/marking in between, the automatic clean, and the absence of that "
-                 "internal error are checked by the correspondence + stream-replaying monitor on every generated history, not proved. That the announced fork point is the "
+                 "announces exactly the new chain above a common header, lowest first, linked) under one explicit history predicate: no automatic clean is triggered. That the branch update cannot fail (IntersectHash always finds a common branch, Find finds the "
+                 "intersect, every height above it is readable) is a theorem there (C07_branch_update_never_fails). Histories with Clean/Save/Load/marking in between and the "
+                 "automatic clean are checked by the correspondence + stream-replaying monitor on every generated history, not proved. That the announced fork point is the "
                  "HIGHEST common header (minimal announcement) is likewise checked, not proved: the theorem shows it is a common header, which is what reconstruction needs.")
 
 META = dict(
@@ -19,7 +19,7 @@ META = dict(
          "to a chain ending in its parent appends it; a side-branch extension that stays behind announces nothing and leaves the tip; a branch update lists exactly "
          "tip-height minus fork-height headers. For every state reached by submissions from genesis (invariant StreamWF, preserved by ProcessHeader): a reorganisation announces "
          "exactly the headers of the new best chain above a header common to both chains, lowest first, as a linked chain, every announced header being on the new best chain "
-         "(C07_reorg_shape, C07_reorg_announced_in_chain); applying any submission's announcement to the best chain before it gives the best chain after it (C07_stream_step); "
+         "(C07_reorg_shape, C07_reorg_announced_in_chain); applying any submission's announcement to the best chain before it gives the best chain after it (C07_stream_step); the branch update never fails (C07_branch_update_never_fails); "
          "over any finite history the subscriber's chain equals the repository's best chain (C07_stream_reconstructs). Every subscriber's stream is compared between the real code and the model after every op.",
     note=COMMON_NOTE + "Partial for histories with maintenance operations (see evidence). Subscriber channels hold 10000 headers (extracted); longer single updates would block and are out of scope.",
 )
